@@ -6,7 +6,7 @@ from simkit import sessioncheck
 PROPERTY = "C03"
 ENGINE = "session"
 LEVEL = "exploration"
-BUDGET = {"quick": (40000, 45), "thorough": (2500000, 540)}
+BUDGET = {"quick": (100000, 60), "thorough": (2500000, 540)}
 RULE = ("seeded edit histories (3-40 ops, state-directed fault ops) over a universe of <=40 odml "
         "objects; the tree monitor runs after every op.  distinct = distinct universe shape "
         "hashes (structure + names + value counts, ids ignored) reached after an op that carried "
